@@ -141,3 +141,62 @@ pub fn len_inputs(_seed: u64) -> impl Iterator<Item = Value> {
     }
     out.into_iter()
 }
+
+// ------------------------------------------------------------------------------------------------------------------
+// c08_derive: validators as the derive macros wire them (list mode, nullable elements, several regex patterns in one process)
+mod derive_case {
+    use async_graphql::*;
+    use std::sync::atomic::{AtomicUsize, Ordering};
+    pub static RAN: AtomicUsize = AtomicUsize::new(0);
+    pub struct Query;
+    #[Object]
+    impl Query {
+        async fn nums(&self, #[graphql(validator(list, maximum = 10))] n: Vec<Option<i32>>) -> i32 { RAN.fetch_add(1, Ordering::SeqCst); n.len() as i32 }
+        async fn mins(&self, #[graphql(validator(list, minimum = 3))] n: Option<Vec<i32>>) -> i32 { RAN.fetch_add(1, Ordering::SeqCst); n.map(|x| x.len() as i32).unwrap_or(-1) }
+        async fn words(&self, #[graphql(validator(list, max_length = 3))] w: Vec<Option<String>>) -> i32 { RAN.fetch_add(1, Ordering::SeqCst); w.len() as i32 }
+        async fn digits(&self, #[graphql(validator(regex = "^[0-9]+$"))] s: String) -> i32 { RAN.fetch_add(1, Ordering::SeqCst); s.len() as i32 }
+        async fn hex(&self, #[graphql(validator(list, regex = "^0x[0-9a-f]+$"))] s: Vec<String>) -> i32 { RAN.fetch_add(1, Ordering::SeqCst); s.len() as i32 }
+        async fn word(&self, #[graphql(validator(regex = "^[a-z]+$"))] s: String) -> i32 { RAN.fetch_add(1, Ordering::SeqCst); s.len() as i32 }
+        async fn items(&self, #[graphql(validator(min_items = 1, max_items = 3))] l: Vec<i32>) -> i32 { RAN.fetch_add(1, Ordering::SeqCst); l.len() as i32 }
+        async fn both(&self, #[graphql(validator(minimum = 2, maximum = 5, multiple_of = 2))] v: i32) -> i32 { RAN.fetch_add(1, Ordering::SeqCst); v }
+        async fn chars(&self, #[graphql(validator(chars_min_length = 2, chars_max_length = 3))] s: String) -> i32 { RAN.fetch_add(1, Ordering::SeqCst); s.len() as i32 }
+    }
+}
+/// args {"queries": [[query, ok]...]}: all queries run against ONE schema in ONE process, in order
+pub fn derive(args: &Value) -> Outcome {
+    use async_graphql::*;
+    use futures_util::FutureExt;
+    let schema = Schema::new(derive_case::Query, EmptyMutation, EmptySubscription);
+    let mut bad = Vec::new();
+    for q in args["queries"].as_array().unwrap() {
+        let (text, ok) = (q[0].as_str().unwrap(), q[1].as_bool().unwrap());
+        derive_case::RAN.store(0, std::sync::atomic::Ordering::SeqCst);
+        let resp = schema.execute(text).now_or_never().unwrap();
+        let ran = derive_case::RAN.load(std::sync::atomic::Ordering::SeqCst);
+        if ok && !(resp.errors.is_empty() && ran == 1) { bad.push(format!("{}: valid value rejected ({:?})", text, resp.errors.iter().map(|e| e.message.clone()).collect::<Vec<_>>())); }
+        if !ok && !( !resp.errors.is_empty() && ran == 0) { bad.push(format!("{}: value violating its validator reached the resolver (errors {:?}, resolver ran {})", text, resp.errors.len(), ran)); }
+    }
+    Outcome { holds: bad.is_empty(), observed: if bad.is_empty() { "every query accepted / rejected as its validators prescribe".into() } else { bad.join("; ") }, expected: "resolver reached iff every validator's predicate holds".into() }
+}
+pub fn derive_inputs(seed: u64) -> impl Iterator<Item = Value> {
+    let all: Vec<(&str, bool)> = vec![
+        ("{ nums(n: [1, 10]) }", true), ("{ nums(n: [1, 11]) }", false), ("{ nums(n: [11, 1]) }", false), ("{ nums(n: [1, null, 11]) }", false), ("{ nums(n: [null, null, 12, 1]) }", false), ("{ nums(n: [1, null, 10]) }", true), ("{ nums(n: []) }", true),
+        ("{ mins(n: [3, 4]) }", true), ("{ mins(n: [3, 2]) }", false), ("{ mins(n: null) }", true), ("{ mins }", true),
+        ("{ words(w: [\"abc\", null, \"ab\"]) }", true), ("{ words(w: [\"abc\", null, \"abcd\"]) }", false), ("{ words(w: [null, \"abcd\"]) }", false),
+        ("{ digits(s: \"123\") }", true), ("{ digits(s: \"12a\") }", false), ("{ hex(s: [\"0xff\", \"0x10\"]) }", true), ("{ hex(s: [\"0xff\", \"12\"]) }", false), ("{ word(s: \"abc\") }", true), ("{ word(s: \"123\") }", false),
+        ("{ digits(s: \"0xff\") }", false), ("{ hex(s: [\"123\"]) }", false), ("{ word(s: \"0xff\") }", false),
+        ("{ items(l: [1]) }", true), ("{ items(l: []) }", false), ("{ items(l: [1, 2, 3]) }", true), ("{ items(l: [1, 2, 3, 4]) }", false),
+        ("{ both(v: 2) }", true), ("{ both(v: 4) }", true), ("{ both(v: 3) }", false), ("{ both(v: 6) }", false), ("{ both(v: 0) }", false), ("{ both(v: 1) }", false),
+        ("{ chars(s: \"\u{e9}\u{e9}\") }", true), ("{ chars(s: \"\u{1F600}\") }", false), ("{ chars(s: \"abcd\") }", false), ("{ chars(s: \"abc\") }", true),
+    ];
+    // the same table in several orders (the first regex exercised must not decide the others)
+    let mut out = Vec::new();
+    let mut r = crate::rng::Rng(seed);
+    for k in 0..4 {
+        let mut v: Vec<Value> = all.iter().map(|(q, ok)| json!([q, ok])).collect();
+        if k == 1 { v.reverse(); }
+        if k >= 2 { for i in (1..v.len()).rev() { let j = r.below((i + 1) as u64) as usize; v.swap(i, j); } }
+        out.push(json!({"queries": v}));
+    }
+    out.into_iter()
+}
